@@ -108,6 +108,11 @@ Section Compose.
     errors_of ps.
 End Compose.
 
+Arguments mkSink {E}. Arguments s_errs {E}. Arguments s_aborted {E}. Arguments push {E}.
+Arguments mkP {RS E}. Arguments p_rules {RS E}. Arguments p_sink {RS E}.
+Arguments par_enter {RS E}. Arguments par_leave {RS E}. Arguments par_decide {RS E}.
+Arguments init_state {RS E}. Arguments errors_of {RS E}. Arguments validate {RS E}.
+
 (* ---- the validation key table: slots that are not traversed (descriptions) ---- *)
 (* [keep kind i] = slot i of nodes of this kind is in query_document_keys_to_validate *)
 Fixpoint mask_tree (keep : N -> nat -> bool) (t : tree) : tree :=
@@ -132,7 +137,7 @@ with mask_trees (keep : N -> nat -> bool) (l : trees) : trees :=
 
 Definition validate_keys {RS E} (keep : N -> nat -> bool) (rs : list (rule RS E * RS))
            (limit : option nat) (fuel : nat) (doc : tree) : list (verr E) :=
-  validate RS E rs limit fuel (mask_tree keep doc).
+  validate rs limit fuel (mask_tree keep doc).
 
 (* ---- scripted rules for the correspondence: (node id, phase) -> (answer, number of errors) ---- *)
 Definition rscript := list (N * phase * ract * nat).
